@@ -96,6 +96,11 @@ class Report(object):
             self.ob(rule, "ANCHOR", False, str(e), config=cfg)
         except (TooManyPaths, NotLoopFree) as e:
             self.ob(rule, "SHAPE", False, "%s: %s" % (type(e).__name__, e), config=cfg)
+        except Exception as e:  # unrecognised shape: fail closed, but say where
+            import traceback
+            tb = traceback.extract_tb(e.__traceback__)
+            where = "%s:%d" % (os.path.basename(tb[-1].filename), tb[-1].lineno) if tb else "?"
+            self.ob(rule, "SHAPE", False, "the rule could not interpret the code it anchors in (%s: %s at %s)" % (type(e).__name__, e, where), config=cfg)
 
     def violations(self):
         return [o for o in self.obs if not o["ok"]]
@@ -114,7 +119,7 @@ def finish(prop, report, ctx, explanation, assumptions, trusted_base, rule_text,
     Returns the process exit code."""
     known = load_known()
     known_keys = {k["key"]: k for k in known.get("findings", []) if k.get("property") == prop}
-    out_dir = os.path.join(VERIF, "out", prop)
+    out_dir = os.path.join(os.environ.get("VERIF_OUT_DIR", os.path.join(VERIF, "out")), prop)
     os.makedirs(out_dir, exist_ok=True)
     for fn in os.listdir(out_dir):
         if fn.endswith(".json"):
@@ -182,8 +187,9 @@ def finish(prop, report, ctx, explanation, assumptions, trusted_base, rule_text,
         "wall_s": wall,
         "violations": len(new),
     }
-    os.makedirs(os.path.join(VERIF, "evidence"), exist_ok=True)
-    with open(os.path.join(VERIF, "evidence", "%s.json" % prop), "w") as f:
+    evdir = os.environ.get("VERIF_EVIDENCE_DIR", os.path.join(VERIF, "evidence"))
+    os.makedirs(evdir, exist_ok=True)
+    with open(os.path.join(evdir, "%s.json" % prop), "w") as f:
         json.dump(ev, f, indent=1, sort_keys=True)
     if explain_key is not None:
         hit = [v for v in viol if v["key"] == explain_key]
